@@ -28,6 +28,9 @@ KE9 == <<233>>  KE000 == <<57344>>  KFFFF == <<65535>>  K10000 == <<65536>>  K10
 \* supplementary characters sharing their high surrogate (D83D), followed by tails that order the other way; and the same
 \* with characters whose first units differ
 KGrinB == <<128512, 98>>  KGrinA2 == <<128513, 97>>  KGrin == <<128512>>  KGrinE000 == <<128512, 57344>>  KGrin2FFFF == <<128513, 65535>>
+\* keys sharing a long prefix (16, 17 units) before the characters whose UTF-16 and code-point orders differ
+P16 == [i \in 1..16 |-> 97]
+KLongE == P16 \o <<57344>>  KLongS == P16 \o <<65536>>  KLongF == P16 \o <<97, 65535>>  KLongT == P16 \o <<97, 1114111>>
 KMix == <<97, 65536>>  KMix2 == <<97, 65535>>  KCtl == <<10>>  KQuote == <<34>>
 
 Bases == {
@@ -45,6 +48,7 @@ Bases == {
   VObj(<<E(KA, N(4)), E(KB, N(6)), E(KAA, N(8)), E(KEmpty, N(20))>>),
   VObj(<<E(KGrinB, N(1)), E(KGrinA2, N(2)), E(KGrin, N(3))>>),
   VObj(<<E(KGrin2FFFF, N(5)), E(KGrinE000, N(7)), E(K10000, N(9)), E(KFFFF, N(10))>>),
+  VObj(<<E(KLongS, N(1)), E(KLongE, N(2)), E(KLongT, N(3)), E(KLongF, N(5))>>),
   VObj(<<>>), VArr(<<>>), N(1)
 }
 
